@@ -65,6 +65,8 @@ def generate(rng, tier, shard, nshards):
         for alg in ("earley", "cky"):
             for ctx in ctxs:
                 args = {"sr": srn, "G": G, "ctx": ctx, "alg": alg, "names": names}
+                if srn == "Rat" and gi % 2 == 1:
+                    args["tiny"] = True          # real weights so small that their products underflow
                 f2 = feat
                 if rng.random() < 0.3:       # earlier queries on the same LM object, incl. dead extensions of ctx
                     args["warm"] = [ctx + [t] for t in sorted(g.V)][: rng.randint(1, 2)] + [rng.choice(ctxs)]
